@@ -140,3 +140,28 @@ Fixpoint nest_field (f : field) : N :=
   | _ => 0
   end.
 Definition nest (fs : list field) : N := fold_right (fun g m => N.max (nest_field g) m) 0 fs.
+
+(* ------------------------------------------------------------------ field trees as encoder input *)
+(* the plan Protowire::serialize works from for a field (packed fields are varint-packed only) *)
+Fixpoint plan_of (f : field) : plan :=
+  match f with
+  | FVarint n v => PlScalar n 0 v
+  | FFixed64 n v => PlScalar n 1 v
+  | FFixed32 n v => PlScalar n 5 v
+  | FBytes n p => PlString n p
+  | FMsg n fs => PlMessage n (map plan_of fs)
+  | FPacked n _ vs => PlPacked n vs
+  | FGroup n fs => PlGroup n (map plan_of fs)
+  end.
+Fixpoint packed_varint_only (f : field) : bool :=
+  match f with
+  | FPacked _ et _ => et =? 0
+  | FMsg _ fs | FGroup _ fs => forallb packed_varint_only fs
+  | _ => true
+  end.
+Fixpoint fixed32_small (f : field) : bool :=
+  match f with
+  | FFixed32 _ v => v <? 2 ^ 32
+  | FMsg _ fs | FGroup _ fs => forallb fixed32_small fs
+  | _ => true
+  end.
